@@ -13,6 +13,7 @@ both ends of every association, serialized text) is compared with it, using
 the public API only.
 '''
 import itertools
+import random
 
 from sim.engine import Engine, Log, Violation, stable_hash
 from sim.meter import SimStall, WallGuard, Meter
@@ -943,6 +944,9 @@ class Gen(object):
                 continue
             for o in (op if isinstance(op, list) else [op]):
                 self.emit(o, actor)
+        if self.prop == 'C16' and rng.random() < 0.04:
+            self.emit({'op': 'sort_long', 'n': rng.choice([1100, 1500, 2500]), 'ring': rng.random() < 0.3,
+                       'seed': rng.getrandbits(32)}, 0)
         if self.prop == 'C10' and rng.random() < 0.3:
             # the last word of some histories: a keyword spelled exactly like a parameter of the constructor
             cand = [(c, n) for c in self.good_classes for n, _ in self.plain_attrs(c['kind']) if n in ('Kind', 'Self')]
@@ -1184,6 +1188,8 @@ def apply_ref(ref, op, gen_time=False, world=None):
             return ('oneof_inst', found)
         return ('inst', found[0] if found else None)
     if k == 'sort':
+        return ('sort', None)
+    if k == 'sort_long':
         return ('sort', None)
     if k == 'check':
         return ('check', None)
@@ -1694,6 +1700,8 @@ class Exec(object):
             return x.navigate_subtype(self.inst(op['h']), op['rel'])
         if k == 'sort':
             return self.do_sort(op)
+        if k == 'sort_long':
+            return self.do_sort_long(op)
         if k == 'check':
             return self.do_check(op)
         if k == 'idgen':
@@ -1892,6 +1900,50 @@ class Exec(object):
             self.bump(self.probes, 'write_then_read_other_spelling')
 
     # ---- C16
+    def do_sort_long(self, op):
+        '''
+        Scale: "for every set ... and the call always terminates".  A private metamodel (the shared one is compared
+        in full after every step) with one chain or ring of op['n'] instances created in a scrambled order.
+        '''
+        x = self.x
+        m = x.MetaModel()
+        m.define_class('N', [('Id', 'integer'), ('Prev_Id', 'integer')])
+        m.define_association('R1', 'N', ['Prev_Id'], False, True, 'succeeds', 'N', ['Id'], False, True, 'precedes').formalize()
+        n = op['n']
+        rng = random.Random(op['seed'])
+        order = list(range(n))
+        rng.shuffle(order)
+        by_pos = {}
+        for pos in order:
+            by_pos[pos] = m.new('N', Id=pos + 1)
+        for pos in range(1, n):
+            # by_pos[pos] succeeds by_pos[pos - 1]
+            x.relate(by_pos[pos], by_pos[pos - 1], 1, 'succeeds')
+        if op['ring']:
+            x.relate(by_pos[0], by_pos[n - 1], 1, 'succeeds')
+        members = list(m.select_many('N'))
+        rng.shuffle(members)
+        qs = x.QuerySet(members)
+        for phrase, sign in (('succeeds', 1), ('precedes', -1)):
+            try:
+                res = list(x.sort_reflexive(qs, 1, phrase))
+            except RecursionError as e:
+                raise Violation('sort', 'step %d: sort_reflexive of a %s of %d instances across %r raised RecursionError'
+                                % (self.step, 'ring' if op['ring'] else 'chain', n, phrase), 'sort:long:RecursionError')
+            ids = [i.Id for i in res]
+            if op['ring']:
+                start = ids[0] if ids else None
+                want = [((start - 1 + sign * k) % n) + 1 for k in range(n)] if start == members[0].Id else None
+            else:
+                want = list(range(1, n + 1))[::sign]
+            if ids != want:
+                raise Violation('sort', 'step %d: sort_reflexive of a %s of %d instances across %r returned %d members, '
+                                'beginning %s; expected beginning %s'
+                                % (self.step, 'ring' if op['ring'] else 'chain', n, phrase, len(ids), ids[:6],
+                                   (want or ['<the first member of the set>'])[:6]), 'sort:long')
+        self.bump(self.probes, 'sort_long_%s' % ('ring' if op['ring'] else 'chain'))
+        return None
+
     def do_sort(self, op):
         ref, w, x = self.ref, self.w, self.x
         hs = []
